@@ -10,11 +10,11 @@ if [ "${REAL:-0}" = 1 ]; then
   /verif/check "$pid" "$tier" 2>&1 | tail -12; rc=${PIPESTATUS[0]}
   git -C /repo checkout -- .
 else
-  d=/tmp/mut/repo_$$; mkdir -p /tmp/mut; rm -rf "$d"
+  d=/tmp/mut/repo_$$; v=/tmp/mut/verif_$$; mkdir -p /tmp/mut; rm -rf "$d"
   git -C /repo worktree add --detach "$d" HEAD >/dev/null 2>&1 || { echo "worktree failed"; exit 2; }
   git -C "$d" apply "$patch" || { echo "patch does not apply"; git -C /repo worktree remove --force "$d"; exit 2; }
-  AEGEAN_REPO="$d" /verif/check "$pid" "$tier" 2>&1 | tail -12; rc=${PIPESTATUS[0]}
+  rsync -a --delete --exclude=.git --exclude="work/*" /verif/ "$v/" && AEGEAN_REPO="$d" "$v/check" "$pid" "$tier" 2>&1 | tail -12; rc=${PIPESTATUS[0]}
   git -C /repo worktree remove --force "$d"
 fi
-PYTHONPATH=/repo /venv/bin/python /verif/tools/translate.py --repo /repo >/dev/null 2>&1   # restore coq/Gen for the real tree
+rm -rf "$v"
 echo "exit=$rc"
